@@ -639,20 +639,34 @@ def run(ctx):
     shapes, hostile, samples = set(), collections.Counter(), []
     quick = ctx.tier == "quick"
     if not err:
-        n, diff, err = enc_tie(d, gen_cluster.gen_enc_cases(ctx.seed, 2500 if quick else 30000))
+        n, diff, err = enc_tie(d, gen_cluster.gen_enc_cases(ctx.seed, 1500 if quick else 30000))
         stats["enc"] = n
         if diff:
             failing = diff
     if not err and not failing:
         from . import gen_hash, gen_set, gen_stream, gen_zset
-        nf = 150 if quick else 1200
+        nf = 80 if quick else 1200
         r0 = random.Random(ctx.seed)
         zs = gen_zset.gen_c12(ctx.seed, "quick")
         fam = (gen_hash.directed() + gen_hash.gen_c10(ctx.seed, nf) + gen_set.directed() + gen_set.gen_c11(ctx.seed, nf)
                + (r0.sample(zs, min(len(zs), nf))) + gen_stream.gen_c18(ctx.seed, nf))
-        plan = [("m", gen_cluster.gen_c14_model_cases(ctx.seed, 500 if quick else 8000), True),
-                ("p", gen_cluster.gen_c14_par_cases(ctx.seed, 300 if quick else 5000), "par"),
-                ("w", gen_cluster.gen_c14_wire_cases(ctx.seed, 300 if quick else 5000), True),
+        def modest(case):
+            # SRANDMEMBER/HRANDFIELD with a count of a million legitimately answer with a million elements:
+            # that is C11's business and costs this check most of a minute
+            for l in case.lines:
+                for h in l.split()[3:]:
+                    if 6 <= len(h) <= 40 and h != "-":
+                        try:
+                            if abs(int(bytes.fromhex(h))) > 50000:
+                                return False
+                        except ValueError:
+                            pass
+            return True
+        fam = [c for c in fam if modest(c)]
+        plan = [("a", gen_cluster.gen_c14_alias_cases(ctx.seed, 60 if quick else 4000), True),
+                ("m", gen_cluster.gen_c14_model_cases(ctx.seed, 300 if quick else 8000), True),
+                ("p", gen_cluster.gen_c14_par_cases(ctx.seed, 150 if quick else 5000), "par"),
+                ("w", gen_cluster.gen_c14_wire_cases(ctx.seed, 200 if quick else 5000), True),
                 ("fam", fam, True)]
         cdir = lib.VERIF / "corpus"
         for f in sorted(cdir.glob("c14_*.prog")):
